@@ -145,6 +145,8 @@ def run_probe(probe):
         obs = []
         for st in probe["steps"]:
             stdin = bytes.fromhex(st["stdin_hex"]) if "stdin_hex" in st else st.get("stdin", "")
+            if "stdin_from" in st:      # the output of an earlier step is this step's input (C02: fixpoint)
+                stdin = obs[st["stdin_from"]].get("stdout", "")
             r = run(st.get("args", []), stdin)
             if "error" in r:
                 return None, r
@@ -159,7 +161,27 @@ def run_probe(probe):
         if any(x == 101 for x in rc):
             ok = False
         return ok, obs
-    if "endless" in probe:
+    if "files" in probe:
+        # input FILES: written into a scratch directory; `{DIR}` in an argument is that directory (a name that is not listed is a
+        # file that does not exist). A value is the file's text, or {"hex": ".."} for arbitrary bytes.
+        import shutil, tempfile
+        tmp = tempfile.mkdtemp(prefix="jawk-probe-")
+        try:
+            for name, content in probe["files"].items():
+                fp = os.path.join(tmp, name)
+                os.makedirs(os.path.dirname(fp), exist_ok=True)
+                data = bytes.fromhex(content["hex"]) if isinstance(content, dict) else content.encode("utf-8")
+                with open(fp, "wb") as fh:
+                    fh.write(data)
+            args = [a.replace("{DIR}", tmp) for a in probe.get("args", [])]
+            stdin = bytes.fromhex(probe["stdin_hex"]) if "stdin_hex" in probe else probe.get("stdin", "")
+            obs = run(args, stdin, full_stdout=bool(probe.get("full_stdout")))
+            for k in ("stdout", "stderr"):
+                if isinstance(obs.get(k), str):
+                    obs[k] = obs[k].replace(tmp, "{DIR}")
+        finally:
+            shutil.rmtree(tmp, ignore_errors=True)
+    elif "endless" in probe:
         obs = run_endless(probe.get("args", []), probe["endless"], any("{FIFO}" in a for a in probe.get("args", [])))
     else:
         stdin = bytes.fromhex(probe["stdin_hex"]) if "stdin_hex" in probe else probe.get("stdin", "")
